@@ -137,9 +137,9 @@ def tlc(module, cfg, work, workers=8, timeout=1800, simulate=None, depth_first=F
         r.violated = m.group(1)
     if "Temporal properties were violated" in r.out:
         r.violated = r.violated or "temporal"
-    m = re.search(r'<<"REJECTED".*', r.out)
+    m = re.search(r'<<\s*"REJECTED".*?(?=\nError:|\nFinished|\n\d+ states|\Z)', r.out, re.S)   # TLC wraps long tuples over several lines
     if m:
-        r.rejected = m.group(0)
+        r.rejected = re.sub(r"\s+", " ", m.group(0)).replace("<< ", "<<").replace(" >>", ">>")
     r.printed = [ln for ln in r.out.splitlines() if ln.startswith("<<") or ln.startswith('"')]
     if "Model checking completed. No error has been found." in r.out or (simulate and p.returncode == 0):
         r.ok = True
